@@ -23,6 +23,7 @@ def run(ctx, res):
     r6.rule_delta_declass(S, res)
     r6.rule_label_declass(S, res)
     r2.rule_per_element(S, res, {"pre", "online"}, cs)
+    r6.rule_generator_clone(S, res)
     mine = [c for c in cs if "fashare ver" in c.labels and {"CMP", "DELTA"} <= c.ing]
     opens = [s_ for s_ in S.inv.direct_sites() if "fashare di_bi" in (s_.label or []) and s_.body.owner.endswith("faand::fashare")]
     if not mine:
